@@ -6,7 +6,7 @@ from cachekey_lib import *
 META = {
     "technique": "Lean 4 theorems over a model of the kernel-key construction whose field lists, combinators and hash renderings are regenerated from the four C++ sources; differential run of real device::setupKernelInfo (Serial, OpenMP) against the model instantiated with the exact hash_t and json-dump models on families of configurations whose values coincide across properties; real two-process builds whose kernels return configuration-dependent values",
     "category": "proof",
-    "level_text": "Proof, for every hash function H, JSON encoder and hash rendering: a key collision of two configurations with different effective inputs yields an explicit collision of H, of the encoder or of the rendering on data computed from the two configurations (C06_collision_reduces), hence with injective H/encoder/rendering equal keys imply equal effective inputs (C06_injective); every input named by the property is in the regenerated field tables (C06_fields_cover); the key depends on nothing but the hashed fields and the source (C06_deterministic). Tied to the code by the regenerated tables (a dropped field, an XOR combinator, a short rendering make the theorems fail) and by a seeded differential run of the real setupKernelInfo against the model (exact 256-bit keys), a pairwise collision oracle inside the harness, two-process determinism and real builds in separate processes.",
+    "level_text": "Proof, for every hash function H, JSON encoder and hash rendering: with injective H/encoder/rendering equal kernel keys imply equal effective inputs (C06_injective, C06_key_determines_inputs); with the encoder instantiated by the model of json::dumpToString its injectivity is proved rather than assumed, on well-formed JSON values (C06_injective_dump via dump_injective); without any idealisation a key shared by configurations with different effective inputs yields a collision of H, of the encoder or of a rendering (C06_collision_reduces); every input named by the property is in the regenerated field tables, which have the labelled full-width shape (C06_fields_cover, C06_table_shape); the key depends on nothing but the hashed fields and the source (C06_deterministic); the constant the OpenMP device xors into the key is an injective step (C06_constant_mix_injective); the historical xor composition collides for every hash function (C06_value_fold_collides). Tied to the code by the regenerated tables (a dropped field, an XOR combinator, a short rendering, a dropped guard make the theorems fail) and by a seeded differential run of the real setupKernelInfo / kernelHash / kernelHeaderHash against the model (exact 256-bit keys, Serial and OpenMP), a pairwise collision oracle inside the harness, two-process determinism and real three-process builds whose kernels return configuration-dependent values.",
     "level_note": "Trusted: Lean kernel; translate/gen_cachekey.py (regex extraction of the field tables and shapes); the hand-written model of the labelled key assembly and of json::dumpToString (validated by the exact-key correspondence, not proved equal to the C++); injectivity of H is an idealisation (a 256-bit hash cannot be injective: the reduction theorem C06_collision_reduces is the statement that needs no such hypothesis); injectivity of the JSON dump is property C24's round trip; cache directories use only the first 64 bits of the key (getString), recorded as an explicit hypothesis `dir` injective in C07 and not decidable here; the process environment (OCCA_CXX, CXXFLAGS, …) is held fixed as the property says; only Serial and OpenMP keys are covered.",
     "design_ref": "DESIGN.md section 4, C06",
 }
@@ -18,14 +18,18 @@ IRRELEVANT = ["verbose", "serial/include_std_x", "foo"]
 # one small pool of strings shared by ALL properties and the source text: coincidences are the rule
 UNSET = object()
 POOL = ["-O1", "-g", "-DV=1", "g++", "cpp", "", "-fPIC -shared", "//x/incA.h", "#define HV 1", "true", "1", "V"]
+# values only (never object keys: json::dumpToString does not escape keys, ledger item F24): characters the dump escapes
+ESC_POOL = ['#define S "a\\b"', "two\nlines\t-g", '"', "\\"]
 
 
 def rvalue(r, depth=0):
     k = r.random()
-    if k < 0.55:
+    if k < 0.50:
         return r.choice(POOL)
+    if k < 0.55:
+        return r.choice(ESC_POOL)
     if k < 0.70:
-        return [r.choice(POOL) for _ in range(r.randint(0, 2))]
+        return [r.choice(POOL + ESC_POOL) for _ in range(r.randint(0, 2))]
     if k < 0.85 and depth < 2:
         return {r.choice(POOL[2:] + ["enabled", "include_paths", "restrict"]): rvalue(r, depth + 1) for _ in range(r.randint(0, 2))}
     if k < 0.93:
